@@ -289,12 +289,12 @@ def replay(rp):
 def cases(tier, seed):
     names = list(structs.SKELETONS)
     out = []
-    quick_single = ["P2", "P2P2", "P3", "NEST", "PCONST", "MULTI"]
+    quick_single = ["P2", "P2P2", "P3", "NEST", "PCONST", "MULTI", "TWOWAYS3"]
     single = quick_single if tier == "quick" else names
     for s in single:
         for q in ("flags", "perm", "perm1", "renumber", "self-compat", "self-compat1"):
             out.append({"skeletons": [s], "question": q})
-    pairs = [("P2", "NEST"), ("NEST", "P2"), ("P2", "P2"), ("P2", "P2P2"), ("P2P2", "P2"), ("PCONST", "P2"), ("P3", "P3")]
+    pairs = [("P2", "NEST"), ("NEST", "P2"), ("P2", "P2"), ("P2", "P2P2"), ("P2P2", "P2"), ("PCONST", "P2"), ("P3", "P3"), ("TWOWAYS3", "TWOWAYS3")]
     if tier != "quick":
         pairs += [("NEST", "P3"), ("P3", "NEST"), ("NEST", "NEST"), ("P2P2", "P2P2"), ("MULTI", "NEST"), ("PCONST2", "P2P2")]
     for a, b in pairs:
